@@ -3,7 +3,7 @@ Require Extraction.
 Require Import ExtrOcamlBasic.
 Extraction Language OCaml.
 Definition ps_step := ProcState.step.
-Definition ps_step1 (priv : bool) := Conc.step1 (ProcState.step priv).
+Definition ps_step1 (priv nlc : bool) := Conc.step1 (ProcState.step priv nlc).
 Definition ps_init := ProcState.init.
 Definition ps_l_init := ProcState.l_init.
 Definition ps_fs_init := ProcState.fs_init.
